@@ -38,6 +38,7 @@ from .sym import (
     SSeq,
     SStr,
     TooManyLeaves,
+    UnsupportedOp,
     _and,
     _as_di,
     _or,
@@ -107,7 +108,7 @@ class PathCut(Exception):
     """the path ends here by construction (inductive step closed, contract says unreachable)"""
 
 
-class Unsupported(Exception):
+class Unsupported(UnsupportedOp):
     """construct outside the supported subset: the function's obligations become undecided"""
 
 
@@ -273,6 +274,7 @@ class PathState(object):
         self.notes = []
         self.ghost = {}
         self.defined = set()
+        self.defs_incomplete = False
         self.container_base = {}
         self._pending = []
         self.z3_only = False
@@ -302,7 +304,12 @@ class PathState(object):
             if n.id in self.defined:
                 continue
             self.defined.add(n.id)
-            defs = n.definitions()
+            try:
+                defs = n.definitions()
+            except fd.TooBig:
+                # without this definition the solver knows less: unsat stays sound, sat does not
+                self.defs_incomplete = True
+                defs = []
             for d in defs:
                 self.solver.add(d)
             todo.extend(n.parents)
@@ -367,7 +374,10 @@ class PathState(object):
             r = self.solver.check()
             model = None
             if r == z3.sat:
-                model = self.solver.model()
+                if self.defs_incomplete:
+                    r = z3.unknown
+                else:
+                    model = self.solver.model()
         finally:
             self.solver.pop()
         dt = time.time() - t0
@@ -1177,6 +1187,8 @@ class Engine(object):
     # -- loops ----------------------------------------------------------------------------------
     def st_For(self, node, frame, st):
         it = self.eval(node.iter, frame, st)
+        if isinstance(it, S.SplitResult):
+            it = it.as_seq_or_list(st)
         if isinstance(it, SSeq):
             return self.for_symbolic(node, it, frame, st)
         items = self.iterate(it, st)
@@ -1622,7 +1634,7 @@ class Engine(object):
         except LeafRaise as lr:
             for e, g in lr.exc_leaves:
                 cls = type(e)
-                if issubclass(cls, (NumericUndecided, Unsupported, TooManyLeaves)):
+                if issubclass(cls, (NumericUndecided, UnsupportedOp, TooManyLeaves)):
                     # an undecided leaf only matters when its guard is feasible on this path
                     if st.feasible(g):
                         raise e
@@ -1898,6 +1910,12 @@ class Engine(object):
                 return fv_apply(lambda x: x in container, item)
             raise Unsupported("substring test with abstract needle")
         if isinstance(container, FV):
+            if isinstance(item, (SStr, SInt)):
+                parts = []
+                for g, leaf in container.leaves:
+                    c = self.cond_z(self.contains(leaf, item, st), st)
+                    parts.append(_and([g, z3.BoolVal(c) if isinstance(c, bool) else c]))
+                return mk_bool(_or(parts))
             return self.lift_raise(lambda c, x: x in c, [container, item], st)
         if isinstance(container, SStr):
             if isinstance(item, str):
